@@ -120,3 +120,28 @@ def make_queue(maxsize=0):
     if _QCLS is None:
         _QCLS = _make_queue_class()
     return _QCLS(maxsize)
+
+
+# ------------------------------------------------------------------ slow is_alive
+# collocate_filesets creates its workers from the module-level name
+# typhon.collocations.collocator.Process.  The harness substitutes a subclass whose
+# `is_alive()` (called by the parent's `running` filter) first sleeps: this widens the window
+# between the parent's `results.empty()` test and its liveness test, in which the last worker
+# may put its final result and exit.
+ALIVE_DELAY = {"s": 0.0}
+_PCLS = None
+
+
+def make_process_class():
+    global _PCLS
+    if _PCLS is None:
+        import multiprocessing
+
+        class SlowAliveProcess(multiprocessing.Process):
+            def is_alive(self):
+                if ALIVE_DELAY["s"]:
+                    time.sleep(ALIVE_DELAY["s"])
+                return super().is_alive()
+
+        _PCLS = SlowAliveProcess
+    return _PCLS
